@@ -435,13 +435,13 @@ func runLLMNR(w *rt.World, res *hx.Result, realServer, realClient bool) *hx.Viol
 	w.Quiet = true
 	var probeQ *llQuery
 	if realClient && !closedEarly && !stoppedEarly {
-		pn := -1
-		for i := 0; i < nNames; i++ {
-			if known[i] {
-				pn = i
-			}
+		// a name no other query of this run uses, so that its wire id can be attributed
+		pn := maxNames - 1
+		known[pn] = true
+		if nNames < maxNames {
+			nNames = maxNames
 		}
-		if pn >= 0 {
+		{
 			probeQ = &llQuery{name: pn}
 			pt := rt.GoHarness("probe-query", "10.0.1.1", func() {
 				rt.SleepUntil(rt.Now() + 3e9) // let stragglers (delayed duplicates) of earlier queries arrive first
@@ -594,6 +594,9 @@ func runLLMNR(w *rt.World, res *hx.Result, realServer, realClient bool) *hx.Viol
 			r := q.resp
 			if len(sent) == 0 && r != nil {
 				continue // the sniffer missed the query datagram (dropped): its id cannot be attributed
+			}
+			if r != nil && len(r.Answers) == 1 && r.Answers[0].Name == "stray.invalid" {
+				continue // a stray whose made-up id happened to equal this query's id: delivering it is matching by id
 			}
 			okID := false
 			for _, id := range sent {
